@@ -1165,6 +1165,120 @@ static void recCvc(int thorough)
 	}
 }
 
+/* ================================================================== C11: DER functions whose header allows val (and len) to overlap der.
+   The logical inputs are kept in separate buffers; the call is laid out in one arena with val (or len) at a
+   given offset against der; the logged line has the format of the disjoint-buffer case, so the same
+   reference semantics judges it: outputs = F(inputs as they were before the call). */
+static octet* g_arena = 0;
+#define AR_SIZE 4096
+#define AR_DER 2000
+static octet* arena(void) { if (!g_arena) g_arena = (octet*)malloc(AR_SIZE); memset(g_arena, 0x5A, AR_SIZE); return g_arena + AR_DER; }
+/* kind: 0 derEnc, 1 derTUINTEnc, 2 derTBITEnc (len = bits), 3 derTPSTREnc (val = string) */
+static void ovEnc(int kind, u32 atag, const octet* val, size_t len, long voff)
+{
+	static const char* const nm[] = { "derEnc", "derTUINTEnc", "derTBITEnc", "derTPSTREnc" };
+	size_t vo = kind == 2 ? (len + 7) / 8 : len;
+	CASE_BEGIN(nm[kind], val, vo)
+	octet* der = arena(); octet* v = der + voff; size_t e, e2; const octet* sep = xbuf(val, vo + (kind == 3));
+	e = kind == 0 ? derEnc(0, atag, sep, len) : kind == 1 ? derTUINTEnc(0, atag, sep, len) : kind == 2 ? derTBITEnc(0, atag, sep, len) : derTPSTREnc(0, atag, (const char*)sep);
+	e2 = e;
+	memcpy(v, val, vo); if (kind == 3) v[vo] = 0;
+	if (OKF(e)) e2 = kind == 0 ? derEnc(der, atag, v, len) : kind == 1 ? derTUINTEnc(der, atag, v, len) : kind == 2 ? derTBITEnc(der, atag, v, len) : derTPSTREnc(der, atag, (const char*)v);
+	lineHead(); jBool("ok", OKF(e)); jU32("atag", atag); if (kind == 2) jInt("abits", (long long)len); jBool("pc", e == e2); jOct("out", der, OKF(e) ? e : 0); jEnd();
+	CASE_END
+}
+/* kind: 0 derTUINTDec, 1 derTBITDec, 2 derTOCTDec, 3 derTPSTRDec; where: 0 val at der + off, 1 len at der + off (val separate) */
+static void ovDec(int kind, const octet* src, size_t n, u32 atag, int where, long off)
+{
+	static const char* const nm[] = { "derTUINTDec", "derTBITDec", "derTOCTDec", "derTPSTRDec" };
+	CASE_BEGIN(nm[kind], src, n)
+	octet* der = arena(); const octet* sep = xbuf(src, n); size_t len0 = 0, r0, r = SIZE_MAX, e = SIZE_MAX, vo = 0; octet* out = 0; octet* re = 0;
+	size_t lenv = 0; size_t* plen = &lenv;
+	r0 = kind == 0 ? derTUINTDec(0, &len0, sep, n, atag) : kind == 1 ? derTBITDec(0, &len0, sep, n, atag) : kind == 2 ? derTOCTDec(0, &len0, sep, n, atag) : derTPSTRDec(0, &len0, sep, n, atag);
+	memcpy(der, src, n);
+	if (OKF(r0))
+	{
+		vo = kind == 1 ? (len0 + 7) / 8 : kind == 3 ? len0 + 1 : len0;
+		if (where == 0) out = der + off; else { out = obuf(vo); plen = (size_t*)(der + off); }
+		r = kind == 0 ? derTUINTDec(out, plen, der, n, atag) : kind == 1 ? derTBITDec(out, plen, der, n, atag) : kind == 2 ? derTOCTDec(out, plen, der, n, atag) : derTPSTRDec((char*)out, plen, der, n, atag);
+		if (where == 1) memcpy(&lenv, plen, sizeof lenv);
+	}
+	if (OKF(r) && lenv == len0 && (kind == 1 || kind == 3 || (kind == 0 && len0 > 0)))
+	{
+		octet* cp = xbuf(out, vo);
+		e = kind == 0 ? derTUINTEnc(0, atag, cp, lenv) : kind == 1 ? derTBITEnc(0, atag, cp, lenv) : derTPSTREnc(0, atag, (const char*)cp);
+		if (OKF(e) && e < SANE) { re = obuf(e); if ((kind == 0 ? derTUINTEnc(re, atag, cp, lenv) : kind == 1 ? derTBITEnc(re, atag, cp, lenv) : derTPSTREnc(re, atag, (const char*)cp)) != e) e = SIZE_MAX; }
+	}
+	if (lenv != len0) { e = SIZE_MAX; re = 0; }
+	lineHead(); jBool("ok", OKF(r0)); jInt("n", NV(r0)); jU32("atag", atag); jBool("oob", 0); jBool("pc", r0 == r && len0 == lenv);
+	if (lenv != len0) lenv = 0;		/* a wrong reported length is flagged by pc; do not print from it */
+	if (kind == 1) jInt("bits", (long long)lenv);
+	if (kind == 3) jOct("str", out, OKF(r) ? lenv : 0); else jOct("val", out, OKF(r) ? (kind == 1 ? (lenv + 7) / 8 : lenv) : 0);
+	if (kind != 2) jRe(re, e);
+	jEnd(); 	CASE_END
+}
+/* kind: 0 derTUINTDec2, 1 derTBITDec2 (alen = bits), 2 derTOCTDec2 */
+static void ovDec2(int kind, const octet* src, size_t n, u32 atag, size_t alen, long off)
+{
+	static const char* const nm[] = { "derTUINTDec2", "derTBITDec2", "derTOCTDec2" };
+	CASE_BEGIN(nm[kind], src, n)
+	octet* der = arena(); const octet* sep = xbuf(src, n); octet* out = der + off; size_t vo = kind == 1 ? (alen + 7) / 8 : alen;
+	size_t r0 = kind == 0 ? derTUINTDec2(0, sep, n, atag, alen) : kind == 1 ? derTBITDec2(0, sep, n, atag, alen) : derTOCTDec2(0, sep, n, atag, alen), r;
+	memcpy(der, src, n);
+	r = kind == 0 ? derTUINTDec2(out, der, n, atag, alen) : kind == 1 ? derTBITDec2(out, der, n, atag, alen) : derTOCTDec2(out, der, n, atag, alen);
+	lineHead(); jBool("ok", OKF(r)); jInt("n", NV(r)); jU32("atag", atag); jInt(kind == 1 ? "abits" : "alen", (long long)alen); jBool("pc", r0 == r);
+	jOct("val", out, OKF(r) ? vo : 0); jEnd(); 	CASE_END
+}
+static void recOverlap(int thorough)
+{
+	static const u32 tg[] = { 0x04, 0x5F29 };
+	static const size_t vl[] = { 0, 1, 5, 126, 127, 128, 130, 255, 256, 300 };
+	static octet enc[400]; static octet val[400];
+	size_t ti, li; long o; int kind;
+	for (ti = 0; ti < 2; ++ti) for (li = 0; li < NOF(vl); ++li)
+	{
+		size_t L = vl[li]; long step = (thorough || L <= 5) ? 1 : 0;
+		u32 t = tg[ti];
+		if (!thorough && ti == 1 && L > 130) continue;
+		for (kind = 0; kind < 4; ++kind)
+		{
+			size_t e, i, len = kind == 2 ? L * 8 - (L ? 3 : 0) : L;
+			if (kind == 1 && L == 0) continue;		/* derTUINTEnc: len > 0 */
+			memcpy(val, g_data + 5000 + 31 * kind, L);
+			if (kind == 1 && L) val[L - 1] |= 0x80;		/* UINT with the sign bit: a zero octet is inserted */
+			if (kind == 3) for (i = 0; i < L; ++i) val[i] = (octet)("ABCDEFGHIJKLMNOPQRSTUVWXYZabcdefghijklmnopqrstuvwxyz0123456789 '()+,-./:=?"[val[i] % 74]);
+			val[L] = 0;
+			e = kind == 0 ? derEnc(0, t, val, len) : kind == 1 ? derTUINTEnc(0, t, val, len) : kind == 2 ? derTBITEnc(0, t, val, len) : derTPSTREnc(0, t, (const char*)val);
+			if (!OKF(e) || e > sizeof enc) continue;
+			/* encoders: val swept over [-(L+4), e+4] against der */
+			for (o = -(long)L - 4; o <= (long)e + 4; ++o)
+			{
+				if (!step && !(o <= -(long)L + 2 || (o >= -4 && o <= 8) || o >= (long)e - (long)L - 4) && (o + (long)vxEnvSeed()) % 7) continue;
+				snprintf(g_cls, sizeof g_cls, "overlap/%s/vlen-%d/val@%ld", encFam(t), (int)L, o);
+				ovEnc(kind, t, val, len, o);
+			}
+			/* decoders: the code just made; val / len swept against der */
+			if (kind == 0) derEnc(enc, t, val, len); else if (kind == 1) derTUINTEnc(enc, t, val, len); else if (kind == 2) derTBITEnc(enc, t, val, len); else derTPSTREnc(enc, t, (const char*)val);
+			{
+				int dk = kind == 0 ? 2 : kind == 1 ? 0 : kind == 2 ? 1 : 3;
+				size_t vo = L + (kind == 3);
+				for (o = -(long)vo - 4; o <= (long)e + 4; ++o)
+				{
+					if (!step && !(o <= -(long)vo + 2 || (o >= -4 && o <= 8) || o >= (long)e - (long)vo - 4) && (o + (long)vxEnvSeed()) % 7) continue;
+					snprintf(g_cls, sizeof g_cls, "overlap/%s/vlen-%d/dec-val@%ld", encFam(t), (int)L, o);
+					ovDec(dk, enc, e, t, 0, o);
+					if (dk != 3) { snprintf(g_cls, sizeof g_cls, "overlap/%s/vlen-%d/dec2-val@%ld", encFam(t), (int)L, o); ovDec2(dk == 0 ? 0 : dk == 1 ? 1 : 2, enc, e, t, len, o); }
+				}
+				for (o = -8; o <= (long)e; o += (thorough ? 1 : 3))
+				{
+					snprintf(g_cls, sizeof g_cls, "overlap/%s/vlen-%d/dec-len@%ld", encFam(t), (int)L, o);
+					ovDec(dk, enc, e, t, 1, o);
+				}
+			}
+		}
+	}
+}
+
 int main(int argc, char** argv)
 {
 	const char* mode = argc > 1 ? argv[1] : "record";
@@ -1186,6 +1300,8 @@ int main(int argc, char** argv)
 		if (all || strcmp(part, "params") == 0) recParams(thorough);
 		/* CV certificates run bign (point validation): not part of "all", the check runs them in a build without UBSan */
 		if (strcmp(part, "cvc") == 0) recCvc(thorough);
+		/* C11: overlapping val / len and der (not part of "all") */
+		if (strcmp(part, "overlap") == 0) recOverlap(thorough);
 		fflush(stdout);
 		fprintf(stderr, "@LINES %ld faults %ld\n", g_lines, g_nfault);
 		return 0;
